@@ -32,12 +32,12 @@ func init() {
 	ev.Register(&ev.Check{
 		ID:             "C11",
 		Level:          "model_checking",
-		Rule:           "(a) histories: ALL sequences of <= 3 (thorough 4) operations from a 57-operation alphabet (8 schema methods x {plain schema, schema with types/allOf and an enum rule object that is itself in the pool, invalid schema}, 6 on a lexically broken schema, 4 on a broken enum rule, Check/Len on 3 documents and on an embedded document with trailing text, Validate and the NextLexeme stream of LIVE document objects that have only been through the rewinding Len/Check, 4 enum-rule methods, 4 regex-type methods) over one pool of live objects, plus each operation repeated 12 times and 3 round-robins of the whole alphabet; every result (verdict, code, position, AST, example bytes, used-type list, enum values) must equal the result on fresh objects, and every value handed to the caller must still equal its snapshot at the end of the history; (c) a second, smaller alphabet (14 operations on two schemas sharing ONE added type object through allOf lists, and on that object) one level deeper; the same with every single sync.Pool answer deviated (fresh object / oldest pooled object) for histories <= 2; (d) interleaved streams: for every pair of 6 small documents (the first also as an embedded document with trailing text) ALL merges of the two NextLexeme call sequences: each document must deliver exactly the events it delivers when read alone; (b) map order: for every scenario of a corpus (type-reference / allOf / additionalProperties / key-shortcut families, type graphs, multi-shortcut objects) ALL single deviations (descending, rotations) of every dynamic range-over-map instance (thorough: pairs) - the library is built through an overlay that turns every `for k := range map` into iteration over an explicitly ordered key list - must leave all public results unchanged. states = distinct (history prefix) pool states, transitions = operations executed, traces_validated_against_impl = histories/scenario runs executed on the real library.",
+		Rule:           "(a) histories: ALL sequences of <= 3 (thorough 4) operations from a 59-operation alphabet (incl. a 60-property schema whose example outgrows the pooled buffers) (8 schema methods x {plain schema, schema with types/allOf and an enum rule object that is itself in the pool, invalid schema}, 6 on a lexically broken schema, 4 on a broken enum rule, Check/Len on 3 documents and on an embedded document with trailing text, Validate and the NextLexeme stream of LIVE document objects that have only been through the rewinding Len/Check, 4 enum-rule methods, 4 regex-type methods) over one pool of live objects, plus each operation repeated 12 times and 3 round-robins of the whole alphabet; every result (verdict, code, position, AST, example bytes, used-type list, enum values) must equal the result on fresh objects, and every value handed to the caller must still equal its snapshot at the end of the history; (c) a second, smaller alphabet (14 operations on two schemas sharing ONE added type object through allOf lists, and on that object) one level deeper; the same with every single sync.Pool answer deviated (fresh object / oldest pooled object) for histories <= 2; (d) interleaved streams: for every pair of 6 small documents (the first also as an embedded document with trailing text) ALL merges of the two NextLexeme call sequences: each document must deliver exactly the events it delivers when read alone; (b) map order: for every scenario of a corpus (type-reference / allOf / additionalProperties / key-shortcut families, type graphs, multi-shortcut objects) ALL single deviations (descending, rotations) of every dynamic range-over-map instance (thorough: pairs) - the library is built through an overlay that turns every `for k := range map` into iteration over an explicitly ordered key list - must leave all public results unchanged. states = distinct (history prefix) pool states, transitions = operations executed, traces_validated_against_impl = histories/scenario runs executed on the real library.",
 		Workers:        func(string) int { return 16 },
 		Run:            run,
 		Replay:         replay,
 		Finish:         finish,
-		QuickBudget:    170 * time.Second,
+		QuickBudget:    260 * time.Second,
 		ThoroughBudget: 14 * time.Minute,
 		Assumptions: []string{
 			"message text is not compared (it may embed map-ordered key lists and pointer-derived names); verdict, code, position and structured values are",
@@ -56,6 +56,7 @@ var docTexts = []string{`{"a":1,"b":["x"]}`, `{"a":-1,"b":[]}`, `{"a":1,`, `{"id
 
 type pool struct {
 	P, U, X, L *jschema.Schema // plain, with types/rule, semantically invalid, lexically broken
+	BIG        *jschema.Schema // 60 properties: its example (> 1 KiB) outgrows the regular size of pooled buffers
 	D          []jlib.Document
 	consumed   []bool     // D[k] has been read through NextLexeme/Validate since its last rewinding Len/Check
 	E, E2      *enum.Enum // E is ALSO the rule @lvl of schema U; E2 is lexically broken
@@ -79,6 +80,17 @@ func newPool() *pool {
 	p.U.AddType("@key", jschema.New("@key", "\"k\" // {regex: \"^k\"}"))
 	p.X = jschema.New("invalid", invalidText)
 	p.L = jschema.New("broken", brokenText)
+	var big strings.Builder
+	big.WriteString("{\n")
+	for i := 0; i < 60; i++ {
+		fmt.Fprintf(&big, "  \"key_%02d\": \"some value number %02d\"", i, i)
+		if i < 59 {
+			big.WriteString(",")
+		}
+		big.WriteString("\n")
+	}
+	big.WriteString("}")
+	p.BIG = jschema.New("big", big.String())
 	p.E2 = enum.New("@e2", "[\n  1,\n  \"x")
 	for i := range docTexts {
 		p.D = append(p.D, newDoc(i))
@@ -234,6 +246,11 @@ func alphabet() []opT {
 			p.consumed[k] = true
 			return b.String(), nil
 		}})
+	}
+	for _, o := range schemaOps("BIG", func(p *pool) *jschema.Schema { return p.BIG }) {
+		if strings.HasSuffix(o.name, ".Example") || strings.HasSuffix(o.name, ".Check") {
+			ops = append(ops, o)
+		}
 	}
 	// a lexically broken schema and a lexically broken enum rule: errors must be as stable as results
 	for _, o := range schemaOps("L", func(p *pool) *jschema.Schema { return p.L }) {
